@@ -138,12 +138,11 @@ impl CQueueLLAllocatorInner {
             return Err(());
         }
 
-        let excess_size = region.end_addr() - alloc_end;
-        if excess_size > 0 && excess_size < size_of::<ListNode>() {
-            // rest of region too small to hold a ListNode (required because the
-            // allocation splits the region in a used and a free part)
-            return Err(());
-        }
+        // A rest that is too small to hold a ListNode is never split off
+        // (see `allocate`, which only keeps a rest of at least `size` bytes),
+        // so it does not make the region unsuitable. Rejecting it would
+        // also reject every fresh page for an allocation that is slightly
+        // smaller than a page, and `find_region` would add pages forever.
 
         // region suitable for allocation
         Ok(alloc_start)
